@@ -133,11 +133,15 @@ type D2 = { t?: "b", y: number };
 type RS = Set<RS>;
 type RM = Map<string, RM | null>;
 enum En { A = "a", B = "b" }
+interface I1 { a: string; m?: I1 }
+interface I2 extends I1 { b: number }
+type GC<T extends string> = { [K in T]: K };
+type Fn = (x: number) => string;
 "#;
 fn leaves() -> Vec<&'static str> {
     vec![
         "string", "number", "boolean", "null", "undefined", "\"a\"", "1", "true", "any", "unknown", "never", "Date", "bigint", "void",
-        "O", "O2", "U", "Tup", "Rec", "RT", "Alias", "G<string>", "D1", "D2", "RS", "RM", "En",
+        "O", "O2", "U", "Tup", "Rec", "RT", "Alias", "G<string>", "D1", "D2", "RS", "RM", "En", "I1", "I2", "GC<U>", "Fn", "object", "symbol",
     ]
 }
 fn unary(e: &str) -> Vec<String> {
@@ -152,6 +156,8 @@ fn unary(e: &str) -> Vec<String> {
         format!("{} extends infer I ? I : never", paren(e)), format!("Uppercase<{}>", e), format!("{} | undefined", paren(e)),
         format!("{{ a: {}, [k: string]: {} }}", e, e), format!("StringFormat<{}>", e), format!("`p${{{}}}`", e), format!("[first: {}, second?: {}]", e, e),
         format!("keyof {}[]", paren(e)), format!("Exclude<{}, null | undefined>[\"a\"]", e),
+        format!("GC<{}>", e), format!("Lowercase<{}>", e), format!("Capitalize<{}>", e), format!("{{ readonly a: {}; b?: {}[] }}", e, paren(e)),
+        format!("NumberFormat<{}>", e), format!("ReadonlyArray<{}>", e), format!("{}[\"b\"][number]", paren(e)),
     ]
 }
 fn binary(e: &str, f: &str) -> Vec<String> {
@@ -161,6 +167,7 @@ fn binary(e: &str, f: &str) -> Vec<String> {
         format!("Omit<{}, {}>", e, f), format!("Pick<{}, {}>", e, f),
         format!("{} extends {} ? {} : {}", paren(e), paren(f), paren(e), paren(f)), format!("{{ [K in {}]: {} }}", e, f), format!("[{}, ...{}[]]", e, paren(f)),
         format!("Exclude<{}, {}> | Extract<{}, {}>", e, f, f, e), format!("{{ a: {} }} & {{ a: {} }}", e, f),
+        format!("Map<{}, {}>", e, f), format!("keyof ({} & {})", paren(e), paren(f)), format!("({} | {})[\"a\"]", paren(e), paren(f)),
     ]
 }
 fn paren(e: &str) -> String {
@@ -172,13 +179,7 @@ fn single(e: &str) -> Vec<(String, String)> {
 // depth: 1 = leaves + one constructor; 2 = + unary over unary, unary over binary (thinned), binary over unary (thinned)
 fn programs(depth: usize) -> Vec<(String, Vec<(String, String)>)> {
     let mut out: Vec<(String, Vec<(String, String)>)> = vec![];
-    let ls = leaves();
-    for l in &ls { out.push((l.to_string(), single(l))); }
-    let mut d1: Vec<String> = vec![];
-    for l in &ls { for u in unary(l) { d1.push(u); } }
-    for a in &ls { for b in &ls { for e in binary(a, b) { d1.push(e); } } }
-    for e in &d1 { out.push((e.clone(), single(e))); }
-    // hand-written multi-file / malformed projects
+    // hand-written multi-file / malformed projects come first: their case numbers stay fixed when the grammar grows
     let mf: Vec<(&str, Vec<(&str, &str)>)> = vec![
         ("missing import", vec![("entry.ts", "import { X } from \"./missing\";\nparse.buildParsers<{ X: X }>();\n")]),
         ("import of a name that is not exported", vec![("t.ts", "type X = string;\n"), ("entry.ts", "import { X } from \"./t\";\nparse.buildParsers<{ X: X }>();\n")]),
@@ -217,6 +218,12 @@ fn programs(depth: usize) -> Vec<(String, Vec<(String, String)>)> {
     for (d, fs) in mf {
         out.push((d.to_string(), fs.into_iter().map(|(a, b)| (a.to_string(), b.to_string())).collect()));
     }
+    let ls = leaves();
+    for l in &ls { out.push((l.to_string(), single(l))); }
+    let mut d1: Vec<String> = vec![];
+    for l in &ls { for u in unary(l) { d1.push(u); } }
+    for a in &ls { for b in &ls { for e in binary(a, b) { d1.push(e); } } }
+    for e in &d1 { out.push((e.clone(), single(e))); }
     if depth >= 2 {
         // unary over every depth-1 expression whose index is a multiple of 7 (thinned), and binary with a leaf
         for (k, e) in d1.iter().enumerate() {
@@ -240,25 +247,34 @@ fn child(depth: usize, from: u64, only: Option<u64>, timeout_s: u64) {
     let mut cases = 0u64;
     let (mut n_code, mut n_diag, mut n_parse) = (0u64, 0u64, 0u64);
     let mut hung = 0;
+    let mut worker: Option<(mpsc::Sender<Vec<(String, String)>>, mpsc::Receiver<Outcome>)> = None;
     let so = std::io::stdout();
     for (descr, files) in progs {
         cases += 1;
         if cases < from { continue; }
         if let Some(c) = only { if c != cases { continue; } }
         { let mut o = so.lock(); let _ = writeln!(o, "S {} {} {} {}", cases, n_code, n_diag, n_parse); let _ = o.flush(); }
-        let (tx, rx) = mpsc::channel();
-        let fl = files.clone();
-        // 64 MB stack: deep but finite recursion must not be mistaken for a crash
-        let _ = std::thread::Builder::new().stack_size(64 << 20).spawn(move || {
-            let r = std::panic::catch_unwind(|| compile(&fl));
-            let _ = tx.send(match r {
-                Ok(o) => o,
-                Err(p) => Outcome::Bad(format!("the compiler PANICS: {}", p.downcast_ref::<String>().cloned().or(p.downcast_ref::<&str>().map(|s| s.to_string())).unwrap_or("?".into()))),
+        // one long-lived worker (64 MB stack: deep but finite recursion must not be mistaken for a crash); it is
+        // replaced only after a hang
+        if worker.is_none() {
+            let (jtx, jrx) = mpsc::channel::<Vec<(String, String)>>();
+            let (rtx, rrx) = mpsc::channel::<Outcome>();
+            let _ = std::thread::Builder::new().stack_size(64 << 20).spawn(move || {
+                while let Ok(fl) = jrx.recv() {
+                    let r = std::panic::catch_unwind(|| compile(&fl));
+                    let _ = rtx.send(match r {
+                        Ok(o) => o,
+                        Err(p) => Outcome::Bad(format!("the compiler PANICS: {}", p.downcast_ref::<String>().cloned().or(p.downcast_ref::<&str>().map(|s| s.to_string())).unwrap_or("?".into()))),
+                    });
+                }
             });
-        });
-        let out = match rx.recv_timeout(Duration::from_secs(timeout_s)) {
+            worker = Some((jtx, rrx));
+        }
+        let (jtx, rrx) = worker.as_ref().unwrap();
+        let _ = jtx.send(files.clone());
+        let out = match rrx.recv_timeout(Duration::from_secs(timeout_s)) {
             Ok(o) => o,
-            Err(_) => { hung += 1; Outcome::Bad(format!("the compiler does not return within {} s (HANG)", timeout_s)) }
+            Err(_) => { hung += 1; worker = None; Outcome::Bad(format!("the compiler does not return within {} s (HANG)", timeout_s)) }
         };
         match out {
             Outcome::Code => n_code += 1,
@@ -284,7 +300,7 @@ fn child(depth: usize, from: u64, only: Option<u64>, timeout_s: u64) {
     std::process::exit(0);
 }
 fn fail_json(case: u64, descr: &str, files: &[(String, String)], why: &str) -> String {
-    let src: Vec<String> = files.iter().map(|(n, t)| format!("// {}\n{}", n, t.replace(PRELUDE, "/* prelude types O, O2, U, Tup, Rec, RT, G<T>, Alias, D1, D2, RS, RM, En */\n"))).collect();
+    let src: Vec<String> = files.iter().map(|(n, t)| format!("// {}\n{}", n, t.replace(PRELUDE, "/* prelude types O, O2, U, Tup, Rec, RT, G<T>, Alias, D1, D2, RS, RM, En, I1, I2, GC<T>, Fn */\n"))).collect();
     format!("{{\"case\":{},\"input\":{:?},\"observed\":{:?},\"required\":{:?}}}", case, format!("{} :: {}", descr, src.join("\n")), why,
         "compilation returns promptly with generated code or well-located diagnostics; it never panics, crashes or loops")
 }
